@@ -54,6 +54,8 @@ func main() {
 		replay(os.Args[2:])
 	case "lib":
 		libMode(os.Args[2:])
+	case "libcorr":
+		libCorr(os.Args[2:])
 	case "pools":
 		p := loadPools()
 		for i, n := range p.textN {
@@ -1934,8 +1936,10 @@ func replay(args []string) {
 	var c struct {
 		Input struct {
 			Requests []string `json:"requests"`
+			Mode     string   `json:"mode"`
 		} `json:"input"`
 		Requests []string `json:"requests"`
+		Mode     string   `json:"mode"`
 	}
 	json.Unmarshal(bs, &c)
 	reqs := c.Input.Requests
@@ -1943,6 +1947,10 @@ func replay(args []string) {
 		reqs = c.Requests
 	}
 	p := loadPools()
+	if c.Input.Mode == "lib" || c.Mode == "lib" {
+		libReplay(p, reqs)
+		return
+	}
 	o := &orun{p: p, dist: map[string]int{}, nontr: map[string]bool{}}
 	o.history(nil, reqs, len(reqs))
 	for _, l := range reqs {
